@@ -12,49 +12,64 @@ def prebuild():
 FAULTS = [{}, {"s1w": 1}, {"s1w": 2}, {"s1w": 3}, {"s1f": 1}, {"s1f": 2}, {"s2w": 1}, {"s2w": 2}, {"s2w": 3}]
 
 
+K = 11          # statement kinds, encoded in base 16
+
+
+def code(kinds):
+    return sum(k * 16 ** i for i, k in enumerate(kinds))
+
+
 def jobs(tier):
     js = []
     q = tier == "quick"
 
-    def add(n, h, fault, two, bound, deadline=120):
-        cfg = {"n": n, "h": h, "two": two}
-        if (h // 8) % 2 == 0:
+    def add(kinds, fault, two, bound, deadline=120):
+        h = code(kinds)
+        cfg = {"n": len(kinds), "h": h, "two": two}
+        if kinds[1] % 2 == 0:
             cfg.update({"tbuf": 1, "soft": 1, "hard": 1})  # one backend event slot, reused by every statement
         cfg.update(fault)
         js.append({"scenario": "c10.ub", "cfg": cfg, "bound": bound, "deadline": deadline})
-    # (A) one thread: every history of n statements over the eight kinds x every single sink fault position
-    for h in range(8 ** 2):
-        for f in FAULTS:
-            add(2, h, f, 0, 1)
+    # (A) one thread: every history of n statements over the eleven kinds x every single sink fault position
+    for a in range(K):
+        for b in range(K):
+            for f in FAULTS:
+                add((a, b), f, 0, 1 if (not q or f in (FAULTS[0], FAULTS[4])) else 0)
     if q:
-        # length 3 in the quick tier: kinds {ok, missing argument, formatter throws int, named, zero arguments}
-        sub = (0, 1, 3, 6, 7)
+        # length 3 in the quick tier: kinds {ok, missing argument, formatter throws int, named, zero arguments, named + throws int}
+        sub = (0, 1, 3, 6, 7, 9)
         for a in sub:
             for b in sub:
                 for c in sub:
                     for f in (FAULTS[0], FAULTS[2], FAULTS[7]):
-                        add(3, a + 8 * b + 64 * c, f, 0, 0)
+                        add((a, b, c), f, 0, 0)
     else:
-        for h in range(8 ** 3):
-            for f in FAULTS:
-                add(3, h, f, 0, 1)
-        for h in range(8 ** 4):
-            for f in (FAULTS[0], FAULTS[2], FAULTS[4], FAULTS[7]):
-                add(4, h, f, 0, 0)
+        for a in range(K):
+            for b in range(K):
+                for c in range(K):
+                    for f in FAULTS:
+                        add((a, b, c), f, 0, 1)
+        sub = (0, 1, 3, 5, 6, 7, 9)
+        for a in sub:
+            for b in sub:
+                for c in sub:
+                    for d in sub:
+                        for f in (FAULTS[0], FAULTS[2], FAULTS[4], FAULTS[7]):
+                            add((a, b, c, d), f, 0, 0)
     # (B) two threads / two loggers sharing sink 2: each kind of unformattable statement in the middle
-    for kind in ((1, 3, 6, 7) if q else range(8)):
-        h = kind * 8
-        for f in ((FAULTS[0], FAULTS[7]) if q else FAULTS):
-            add(3, h, f, 1, 1 if q else 2, 300)
+    for kind in ((1, 3, 6, 7, 9) if q else range(K)):
+        for f in ((FAULTS[0], FAULTS[4], FAULTS[7]) if q else FAULTS):
+            add((0, kind, 0), f, 1, 1 if q else 2, 300)
     return js
 
 
 def run(ctx):
     ctx.rule = ("(A) every history of 2-3 (thorough: 4) statements over {ok, ok with named arguments, run-time format string with a missing argument, placeholders "
-                "with no arguments at all, user formatter throwing std::runtime_error / int / a non-std class, LOG_BACKTRACE without init} x every position of a "
+                "with no arguments at all, user formatter throwing std::runtime_error / int / a non-std class (also inside a statement with named arguments), LOG_BACKTRACE without init} x every position of a "
                 "single std::exception thrown by sink 1's write, sink 1's flush or sink 2's write, followed by flush_log(); (B) the "
                 "same with a second thread logging through a second logger that shares sink 2, all schedules up to the preemption "
-                "bound; every other statement delivered once in order, one notification per fault (no flood), flush_log returns, "
+                "bound; every other statement delivered once in order, one notification per fault (no flood), flush_log returns and the sink "
+                "after a sink whose flush threw is flushed all the same, "
                 "the backend becomes quiescent; distinct = distinct observable outcomes")
     ctx.set_deadline(170 if ctx.tier == "quick" else 1800)
     exe = opxlib.build("sc_c10", SRC)
